@@ -230,6 +230,7 @@ def stage_proofs(prop, st, thorough=False):
                 axioms.append(mm.group(1))
     nprint = len(re.findall(r"^\s*Print Assumptions", open(os.path.join(COQ, "Properties/%s.v" % prop)).read(), re.M))
     st["print_assumptions"] = nprint
+    st["theorem_names"] = re.findall(r"^Theorem\s+([A-Za-z0-9_']+)", open(os.path.join(COQ, "Properties/%s.v" % prop)).read(), re.M)
     st["closed"] = closed
     st["axioms"] = sorted(set(axioms))
     bad_ax = [a for a in set(axioms) if a not in ALLOWED_AXIOMS]
@@ -767,7 +768,7 @@ def write_evidence(prop, tier, seed, st, res, t_start, violations, known, n_oras
             "correspondence harness (Rust) + cfg(avt_verif) state export hook + OCaml state parser",
             "hand-modelled: terminal.rs, buffer.rs, line.rs, tabs.rs, SgrOps::next (tied by step-wise correspondence, i.e. testing)",
         ],
-        "theorems": cfg.get("theorems", []),
+        "theorems": st.get("theorem_names", []),
         "proof_status": cfg.get("proof_status", ""),
         "evaluations": steps,
         "distinct_nontrivial": int(res.stats.get("distinct_nontrivial", 0)),
